@@ -155,7 +155,11 @@ impl TurnClient {
             let bytes = message.encode(key_option.as_deref(), true)?;
             self.send(&bytes).await?;
             let mut buf = [0u8; MAX_STUN_MESSAGE];
-            let len = self.recv(&mut buf).await?;
+            // recv() only bounds the wait on UDP; a TCP server that accepts the connection and
+            // then stays silent (or stops in the middle of a frame) must not stall gathering.
+            let len = timeout(DEFAULT_STUN_TIMEOUT, self.recv(&mut buf))
+                .await
+                .map_err(|_| anyhow!("TURN allocate response timed out"))??;
             let parsed = StunMessage::decode(&buf[..len])?;
             if parsed.transaction_id != tx_id {
                 continue;
